@@ -27,6 +27,9 @@ func NewSalience(val int) *Salience {
 // Salience is a simple AST object that stores salience
 type Salience struct {
 	SalienceValue int
+	// OutOfRange is set when the salience literal does not fit the 32 bit range.
+	// The receiver of the salience reports it as an error.
+	OutOfRange bool
 }
 
 // SalienceReceiver must be implemented by any AST object that stores salience
@@ -39,6 +42,6 @@ func (sal *Salience) AcceptIntegerLiteral(lit *IntegerLiteral) {
 	if lit.Integer >= math.MinInt32 && lit.Integer <= math.MaxInt32 {
 		sal.SalienceValue = int(lit.Integer)
 	} else {
-		panic("Salience value out of range")
+		sal.OutOfRange = true
 	}
 }
